@@ -386,6 +386,29 @@ mod imp {
                 return Some(Finding { rule: "set-visible-after-completion", class: "stale-read", detail: format!("T{} {:?} was invoked after the winning set had completed but reported 'not set'", o.t, o.op) });
             }
         }
+        // set-once is stable: after a read has reported 'set', no read invoked later reports 'not set' (a reader that is
+        // told "set" may rely on the value being there: reads report 'not set' until a set has COMPLETED)
+        let reads: Vec<(&Op, bool)> = ops
+            .iter()
+            .filter(|o| o.op != OpKind::Set)
+            .filter_map(|o| match &o.res {
+                Some(OpResult::Got(g)) => Some((o, g.is_some())),
+                Some(OpResult::IsSet(b)) => Some((o, *b)),
+                _ => None,
+            })
+            .collect();
+        for (a, a_set) in &reads {
+            if !*a_set {
+                continue;
+            }
+            if let Some((b, _)) = reads.iter().find(|(b, b_set)| !*b_set && a.end < b.begin) {
+                return Some(Finding {
+                    rule: "unset-until-set-completed",
+                    class: "set-reported-then-unset",
+                    detail: format!("T{} {:?} reported 'set', and T{} {:?}, invoked after it had returned, reported 'not set'", a.t, a.op, b.t, b.op),
+                });
+            }
+        }
         if !out.payload_drops_ok {
             return Some(Finding { rule: "ownership", class: "payload-drop-count", detail: format!("{} payloads were created but the number of drops differs (or one was dropped twice)", out.sets) });
         }
